@@ -6,6 +6,31 @@ ROOT = os.path.dirname(os.path.dirname(os.path.abspath(__file__)))
 
 # id -> (category, technique, level text, level note, design ref)
 CHECKS = {
+ "C09": ("fault_enumeration",
+         "runtime monitor: offline checker over the event log of a probe child maker (exactly-once serials, old-population address/fingerprint, live random words, snapshot equality on failure) under native stress with injected delays and fault enumeration over call indices; Miri (tree borrows, many seeds) on every run and ThreadSanitizer in the thorough tier for the unsafe lifetime extension and the rayon hand-off",
+         "Sizes {0,1,2,3,5,8,17,64,257,1000} x serial_next / par_next on rayon pools of 1,2,3,4,8,16 x delay {none, yield, spin, sleep} x failure injected at every call index (sizes <= 17; sampled positions and multi-failure sets beyond) x Vec / VecDeque populations over 2-3 consecutive generations (1.8e3 configurations, x6 repetitions thorough); the evidence reports distinct interleaving signatures, overlap per pool size and is inconclusive for the schedule dimension if no two calls ever overlapped. Miri: 8 seeds of a 14-configuration workload (quick) / 32 seeds of a 96-configuration workload (thorough); TSan: 480 configurations (thorough).",
+         "Schedules are sampled (stress, pool sizes, delays, Miri seeds, TSan), not enumerated. Stacked Borrows is not used (known crossbeam-epoch false positive); Tree Borrows is.",
+         "DESIGN.md §4 C09, §5"),
+ "C15": ("exploration",
+         "runtime monitor: order-law checker exhaustive over a boundary value pool (pairs and triples) + sum/sequence invariants on random result vectors + recording scorer with serial-numbered genomes",
+         "Score/Error/TestResult: reflexivity, antisymmetry, transitivity, agreement of cmp/partial_cmp/<,<=,>,>=,==,!=,max,min over all pairs and triples of a 10-value pool of i64 extremes and repeats, Score ascending, Error reversed, Score-vs-Error incomparable both ways; TestResults/EcIndividual: 2e6 (quick) / 4e7 (thorough) random vector pairs for total = sum, order kept, comparison delegation (From<IntoIterator> and FromIterator; i128 variant); IndividualGenerator / WithScorer / GenomeScorer: genome identity, scorer called exactly once with that genome, maker failure passes through.",
+         "== of TestResults / EcIndividual is not required to agree with cmp; sums are kept in range.",
+         "DESIGN.md §4 C15"),
+ "C16": ("exploration",
+         "runtime monitor: double-run equality incl. generator fingerprints over a registry of every stochastic operation (second run on another thread, fixtures rebuilt), interleaved call histories on shared operator values, Push runs under every input declaration order",
+         "39 registry entries x 2e4 (quick) / 4e5 (thorough) seeds; A(s1),B(s2),A(s1) histories on pipelines, UMAD, GeneGenerator, Lexicase; operator values shared by four threads; 2e4 / 4e5 random Push programs with up to 5 named inputs run under all declaration orders (<= 120) comparing results and PushState equality.",
+         "A hidden randomness source would have to coincide across two runs on two threads to go unnoticed; Generation stepping deliberately uses the thread RNG and belongs to C09.",
+         "DESIGN.md §4 C16"),
+ "C17": ("exploration",
+         "runtime monitor: concrete-vs-erased differential over all 28 generated pointer flavours of the five erasable traits, with the default boxed error type and the identity error conversion",
+         "Every round makes 280 erased calls (5 traits x 28 flavours x 2 error conversions) around run-time chosen real implementations and succeeding/failing probes and compares value (selectors: element identity), error Display text and source chain, random-stream fingerprint and wrapped-call count with the concrete call; 4e4 (quick) / 1e6 (thorough) rounds. The (trait x flavour) grid is exhaustive in every round.",
+         "Values are compared through Debug renderings.",
+         "DESIGN.md §4 C17"),
+ "C18": ("exploration",
+         "runtime monitor: counting element generator (serial-set membership, exact sizes) for collection generators; identity/serial membership + Bernstein uniformity + num_choices for 19 choice-construction flavours; 16 empty-collection constructions must be rejected at construction",
+         "Collection sizes 0..64 and 10^4 over Vec (three construction paths, repeated sampling), Bitstring (incl. random / random_with_probability), Plushy and scored populations; choices built from collections of size 1..8 with duplicate values at distinct positions, 2e6 (quick) / 4e7 (thorough) draws per (flavour, size).",
+         "Order inside a generated collection and over-draw from the element generator are recorded, not judged.",
+         "DESIGN.md §4 C18"),
  "C06": ("exploration",
          "runtime monitor: identity invariant (ptr::eq against the population's own elements) + documented-error table per configuration + panic capture, through every access path (direct, &S, Select operator, &dyn, Box<dyn>) and 13 weighted nestings with run-time chosen members",
          "2e5 (quick) / 3e6 (thorough) random populations of size 0..9 (empty, singleton, all-equal, duplicate-laden, uneven result counts) x Best, Worst, Random, Tournament(k=1..n+2), Lexicase(cases 0..m+2, both polarities) x five access paths, plus six random weighted combinations per population with weights incl. 0: Ok must be that very element, Err must be the documented error for that configuration (and must occur where documented), exactly one positive-weight member is used per selection.",
